@@ -147,7 +147,8 @@ fn catch<T>(f: impl FnOnce() -> T + panic::UnwindSafe) -> Option<T> {
 
 pub fn probe(func: &str) -> bool {
     let known = ["pow", "exp", "log", "norm_cdf", "inv_norm_cdf", "abs", "eq", "to_new_vars", "to_union_vars", "to_combined_vars", "vars_cmp",
-                 "gradient1", "gradient2", "gradient1_manifold", "fouter11_", "partial_cmp", "sum", "zero", "one", "is_zero", "from", "set_order", "set_order_clone"];
+                 "gradient1", "gradient2", "gradient1_manifold", "fouter11_", "partial_cmp", "sum", "zero", "one", "is_zero", "from", "set_order", "set_order_clone",
+                 "number_cmp_number", "number_eq_number", "number_cmp_f64", "f64_cmp_number", "number_eq_f64", "f64_eq_number"];
     if !(func.starts_with("op_") || known.contains(&func)) {
         return false;
     }
@@ -282,6 +283,42 @@ pub fn probe(func: &str) -> bool {
             // shared storage: re-lay b onto a's Arc and repeat the product
             let b2 = b.to_new_vars(a.vars(), None);
             let _ = Arc::ptr_eq(a.vars(), b2.vars());
+        }
+    }
+    // ---- Number container: ordering and equality of every admissible pairing of variants agree with the float comparison
+    {
+        use rateslib::dual::Number;
+        let vals = [-1.5, 0.0, 0.5, 2.0];
+        let mk = |kind: usize, v: f64| -> Number {
+            match kind { 0 => Number::F64(v), 1 => Number::Dual(Dual::new(v, vec!["x".to_string()])), _ => Number::Dual2(Dual2::new(v, vec!["x".to_string()])) }
+        };
+        for ka in 0..3usize {
+            for kb in 0..3usize {
+                if (ka == 1 && kb == 2) || (ka == 2 && kb == 1) { continue; }
+                for va in vals {
+                    for vb in vals {
+                        let (a, b) = (mk(ka, va), mk(kb, vb));
+                        let names = ["F64", "Dual", "Dual2"];
+                        let inp = format!("Number::{}({}) vs Number::{}({})", names[ka], va, names[kb], vb);
+                        let got = catch(|| (a.partial_cmp(&b), a < b, a > b, a == b));
+                        // `==` is full equality (C03): value AND derivatives -- a float against a number with a unit sensitivity is never equal
+                        let exp = (va.partial_cmp(&vb), va < vb, va > vb, va == vb && ka == kb);
+                        match got {
+                            Some(g) if g == exp => {}
+                            Some(g) => { report("probe", func, &format!("{}: (partial_cmp, <, >, ==)", inp), &format!("{:?}", g), &format!("{:?}", exp), false); return true; }
+                            None => { report("probe", func, &inp, "PANIC", "a comparison", false); return true; }
+                        }
+                        // against plain floats, both sides
+                        let gf = catch(|| (a.partial_cmp(&vb), vb.partial_cmp(&a)));
+                        let ef = (va.partial_cmp(&vb), vb.partial_cmp(&va));
+                        match gf {
+                            Some(g) if g == ef => {}
+                            Some(g) => { report("probe", func, &format!("Number::{}({}) vs float {}: (n.partial_cmp(f), f.partial_cmp(n))", names[ka], va, vb), &format!("{:?}", g), &format!("{:?}", ef), false); return true; }
+                            None => { report("probe", func, &inp, "PANIC", "a comparison", false); return true; }
+                        }
+                    }
+                }
+            }
         }
     }
     // ---- Number container: Dual/Dual2 mixes must be refused (panic), both operand orders, every operator
